@@ -77,6 +77,23 @@ func c01Shapes() []Shape {
 		Pr(S("end"))))
 	add("switch-notag", Prog(Def("x", L(0)),
 		Switch{Cases: []Case{{Val: Op("<", V("x"), L(1)), Body: []Stmt{Pr(S("lt"))}}, {Val: Op("==", V("x"), L(1)), Body: []Stmt{Pr(S("eq"))}}}, HasDef: true, DefPos: 2, Default: []Stmt{Pr(S("gt"))}}))
+	add("switch-clause-scopes", Prog(Def("x", L(0)),
+		Switch{Tag: V("x"), Cases: []Case{{Val: N(0), Body: []Stmt{Def("t", N(1)), Pr(S("a"), V("t"))}}, {Val: N(1), Body: []Stmt{Def("t", Op("+", V("x"), N(2))), Pr(S("b"), V("t"))}}},
+			HasDef: true, DefPos: 2, Default: []Stmt{Def("t", S("dflt")), Pr(S("c"), V("t"))}},
+		Switch{Cases: []Case{{Val: Op(">", V("x"), N(0)), Body: []Stmt{VarTV("u", TInt, N(5)), Pr(V("u"))}}, {Val: Op("<", V("x"), N(0)), Body: []Stmt{Def("u", S("neg")), Pr(V("u"))}}}},
+		Def("t", N(9)), Def("u", T()), Pr(V("t"), V("u"))))
+	add("empty-first-branch", Prog(Def("x", L(0)),
+		IfChain([]Expr{Op("==", V("x"), L(1)), Op("==", V("x"), L(2)), Op(">", V("x"), L(3))}, []Blk{{}, {Pr(S("second"))}, {Pr(S("third"))}}, nil),
+		Switch{Tag: V("x"), Cases: []Case{{Val: N(0), Body: nil}, {Val: N(1), Body: []Stmt{Pr(S("one"))}}, {Val: L(2), Body: []Stmt{Pr(S("two"))}}}},
+		IfChain([]Expr{Op("<", V("x"), N(0)), Op(">=", V("x"), N(0))}, []Blk{{}, {Pr(S("nonneg"))}}, Blk{}),
+		Pr(S("end"))))
+	add("continue-after-closed-inner-loop", Prog(Def("t", L(0)),
+		For3(Def("i", N(0)), Op("<", V("i"), N(3)), Inc("i"),
+			For3(Def("j", N(0)), Op("<", V("j"), N(2)), Inc("j"), Pr(V("i"), V("j"))),
+			ForC(Op("<", V("t"), N(0)), Inc("t")),
+			IfS(Op("==", V("i"), N(1)), Continue{}),
+			Pr(S("after"), V("i"))),
+		Pr(S("done"))))
 	add("switch-default-only", Prog(Def("x", L(0)), Switch{Tag: V("x"), HasDef: true, Default: []Stmt{Pr(S("d"), V("x"))}}))
 	add("switch-default-first", Prog(Def("x", L(0)),
 		Switch{Tag: V("x"), Cases: []Case{{Val: L(1), Body: []Stmt{Pr(S("c1"))}}}, HasDef: true, DefPos: 0, Default: []Stmt{Pr(S("d"))}}))
